@@ -261,6 +261,13 @@ def run_sequence(sc):
                     elif flt is not None and (not isinstance(flt, str) or flt not in valid_filters):
                         if status >= 500:
                             fails.append(("internal-error:list_executions:invalid-filter", "%s -> %s %r" % (js(op), status, body)))
+                        elif status == 200 and isinstance(body, dict) and isinstance(body.get("executions"), list):
+                            # an invalid filter is either refused or ignored (the front ends reset it to "no filter"): an answer that lists neither everything nor an error
+                            # presents a live set that is not there
+                            want = sorted(a for a, e in M.executions.items() if e["stateMachineArn"] == arn)
+                            got = sorted(e.get("executionArn") for e in body["executions"])
+                            if want != got:
+                                fails.append(("list-executions-invalid-filter-neither-refused-nor-ignored", "%s -> %r, live set %r" % (js(op), got, want)))
                     elif status != 200 or not isinstance(body, dict) or not isinstance(body.get("executions"), list):
                         fails.append(("list-executions-wrong-answer", "%s -> %s %r" % (js(op), status, body)))
                     else:
@@ -459,7 +466,7 @@ def strategies():
         st.fixed_dictionaries({"op": st.just("describe"), "sm": sm}),
         st.fixed_dictionaries({"op": st.just("delete"), "sm": sm}),
         st.fixed_dictionaries({"op": st.just("list")}),
-        st.fixed_dictionaries({"op": st.just("list_executions"), "sm": sm, "filter": st.sampled_from([None, None, "RUNNING", "SUCCEEDED", "FAILED", "TIMED_OUT", "ABORTED", "BOGUS", "", ["RUNNING"], 7])}),
+        st.fixed_dictionaries({"op": st.just("list_executions"), "sm": sm, "filter": st.sampled_from([None, None, "RUNNING", "SUCCEEDED", "FAILED", "TIMED_OUT", "ABORTED", "BOGUS", "", ["RUNNING"], 7, 0, False, {}, []])}),
         st.fixed_dictionaries({"op": st.just("describe_execution"), "exec": ex}),
         st.fixed_dictionaries({"op": st.just("describe_for_execution"), "exec": ex}),
         st.fixed_dictionaries({"op": st.just("raw"), "action": st.sampled_from(["CreateStateMachine", "DescribeStateMachine", "UpdateStateMachine", "DeleteStateMachine", "StartExecution",
